@@ -8,6 +8,9 @@
 //                    futures are ready.
 //   mode hold      : the same with a configuration biased towards one worker, a small local queue, a
 //                    full global queue and a permanently sweeping balance thread
+//   mode wide      : pool runs with stealing on in which the workers' thread-local slots are 126, 127, 128, …
+//                    (124 parked threads hold the smaller ids) and the storage has 160 slots: the stealing scan
+//                    crosses from the first into the second 128-entry block
 //   mode inplace   : InplaceExecutor, nested submissions
 //   mode newthread : AlwaysUseNewThreadExecutor, children, join()
 // Output per run:  RUN <seed> mode=… W=… L=… G=… steal=… bal=…\n <trace lines> END
@@ -72,6 +75,7 @@ struct Book {
   bool stop_called = false;
   int lingering = 0;  // tasks that have spawned their children and are waiting for stop() to begin
   int next_reject = 0;
+  int salt = 0;  // rotates the failure codes of the rejecting executor from run to run
   int value(int id) const { return id * 7 + 3; }
   void resize(size_t n) {
     runs.assign(n, 0);
@@ -116,6 +120,34 @@ static void make_forest(Rng& rng, Book& b, int roots, int maxdepth, int cap, uns
   b.next_reject = 1000;
 }
 
+// a user-defined executor whose invoke() always fails, with any non-zero code (the contract of
+// BasicExecutor::invoke is "== 0 success, != 0 fail: the function is not moved away and never called")
+struct Rejecting : public Executor {
+  int code = -1;
+  int invoke(MoveOnlyFunction<void(void)>&&) noexcept override { return code; }
+};
+static const int REJECT_CODES[] = {-1, 1, 16 /* EBUSY */, -2, 11 /* EAGAIN */, (int)0x80000000, 0x7fffffff};
+
+// a failing submission through executor `ex`: never runs, execute() yields an invalid future, submit() a non-zero code
+static void probe_failing(Executor& ex, int code, int id, bool use_execute) {
+  bool ran = false;
+  bool ok;
+  if (use_execute) {
+    auto f = ex.execute([&ran] {
+      ran = true;
+      return 1;
+    });
+    ok = f.valid();
+  } else {
+    ok = ex.submit([&ran] { ran = true; }) == 0;
+  }
+  if (ok || ran) {
+    vrt_event("ORACLE rejected-ran failing executor (invoke returns %d, %s): accepted=%d ran=%d", code, use_execute ? "execute" : "submit", (int)ok,
+              (int)ran);
+  }
+  vrt_event("reject %d", id);
+}
+
 using TaskQueue = ConcurrentBoundedQueue<ThreadPoolExecutor::Task>;
 // thread-local slots whose tickets are named in the trace (thread ids are reused, so only small slot
 // numbers occur; an access to an unnamed slot would leave a gap the replay reports)
@@ -131,23 +163,17 @@ struct PoolRun {
   Executor base;  // BasicExecutor::invoke: always fails
   Book b;
 
+  Rejecting rejecting;
+
   void probe_reject() {
     int id = b.next_reject++;
-    bool ran = false;
-    bool ok;
-    if (id % 2 == 0) {
-      auto f = base.execute([&ran] {
-        ran = true;
-        return 1;
-      });
-      ok = f.valid();
+    int pick = (id + b.salt) % 8;
+    if (pick == 7) {
+      probe_failing(base, -1, id, id % 2 == 0);
     } else {
-      ok = base.submit([&ran] { ran = true; }) == 0;
+      rejecting.code = REJECT_CODES[pick];
+      probe_failing(rejecting, rejecting.code, id, (id / 8) % 3 != 2);
     }
-    if (ok || ran) {
-      vrt_event("ORACLE rejected-ran failing executor: accepted=%d ran=%d", (int)ok, (int)ran);
-    }
-    vrt_event("reject %d", id);
   }
 
   void submit_task(int id);
@@ -238,9 +264,29 @@ static void warm_up() {
   InplaceExecutor::instance().execute([] { return 0; }).get();
 }
 
-static void run_pool(uint64_t seed, bool hold) {
+// mode wide: 124 more parked workers of a leaked pool take the thread ids 2..125 of the thread-local
+// queue storage, so the workers of the pools under test get the ids 126, 127, 128, ... and straddle
+// the boundary between the first and the second 128-entry block of that storage
+static void warm_wide() {
+  static bool done = false;
+  if (done) return;
+  done = true;
   warm_up();
-  Rng rng(seed * 2654435761ull + (hold ? 17 : 0));
+  auto* p = new ThreadPoolExecutor;
+  p->set_worker_number(124);
+  p->set_local_capacity(1);
+  p->set_global_capacity(1);
+  p->start();
+  for (int spin = 0; spin < 20000 && ThreadId::end<TaskQueue>() < 126; ++spin) usleep(1000);
+  if (ThreadId::end<TaskQueue>() < 126) {
+    fprintf(stderr, "warm_wide: only %u thread ids in use\n", (unsigned)ThreadId::end<TaskQueue>());
+    exit(3);
+  }
+}
+
+static void run_pool(uint64_t seed, bool hold, bool wide = false) {
+  warm_up();
+  Rng rng(seed * 2654435761ull + (hold ? 17 : 0) + (wide ? 29 : 0));
   int W = 1 + (int)rng.below(4);
   int G = 1 + (int)rng.below(4);
   int L = (int[]) {0, 2, 2, 1}[rng.below(4)];
@@ -268,6 +314,18 @@ static void run_pool(uint64_t seed, bool hold) {
     maxdepth = 3;
     kid_pct = 90;
   }
+  if (wide) {
+    // stealing across the block boundary: two or three workers, local queues in use, nobody blocks
+    W = 2 + (int)rng.below(2);
+    L = 1 + (int)rng.below(2);
+    steal = true;
+    bal = rng.pct(20) ? 2 : -1;
+    klass = 0;
+    nsub = 1 + (int)rng.below(2);
+    roots = 2 + (int)rng.below(3);
+    maxdepth = 2 + (int)rng.below(2);
+    kid_pct = 85;
+  }
   if (klass == 0) {
     G = 4;
     cap = 8 - W;  // 2*G slots hold every task and every marker
@@ -275,6 +333,8 @@ static void run_pool(uint64_t seed, bool hold) {
   }
   PoolRun R;
   make_forest(rng, R.b, roots, maxdepth, cap, kid_pct, 20, 25);
+  R.b.salt = (int)(seed % 8);
+  const int nslot = wide ? 160 : NSLOT;
   if (klass == 1) {
     // at most W-1 tasks have children: a worker that does not spawn is always left to drain the queue
     int spawners = 0;
@@ -325,8 +385,8 @@ static void run_pool(uint64_t seed, bool hold) {
   alignas(ThreadPoolExecutor) static unsigned char storage[sizeof(ThreadPoolExecutor)];
   vrt_unname_all();
   vrt_begin(seed);
-  printf("RUN %lu mode=pool W=%d L=%d G=%d steal=%d bal=%d klass=%d dtor=%d wait=%d balus=%d linger=%d\n", (unsigned long)seed, W, L, G,
-         (int)steal, bal >= 0 ? 1 : 0, klass, (int)use_dtor, wait_mode, bal, (int)linger_run);
+  printf("RUN %lu mode=pool W=%d L=%d G=%d steal=%d bal=%d klass=%d dtor=%d wait=%d balus=%d linger=%d slots=%d\n", (unsigned long)seed, W, L, G,
+         (int)steal, bal >= 0 ? 1 : 0, klass, (int)use_dtor, wait_mode, bal, (int)linger_run, nslot);
   auto* pool = new (storage) ThreadPoolExecutor;
   R.pool = pool;
   pool->set_worker_number(0);
@@ -334,12 +394,12 @@ static void run_pool(uint64_t seed, bool hold) {
   pool->set_global_capacity((size_t)G);
   pool->set_enable_work_stealing(steal);
   pool->start();                                  // no worker yet: only sets the slot constructor
-  pool->_local_task_queues._storage.ensure(NSLOT - 1);  // first block of thread-local queues, built by that constructor
+  pool->_local_task_queues._storage.ensure(nslot - 1);  // first block of thread-local queues, built by that constructor
   pool->stop();
   vrt_name(&pool->_global_task_queue._next_push_index, 8, "gpush");
   vrt_name(&pool->_global_task_queue._next_pop_index, 8, "gpop");
   vrt_name(&pool->_running, sizeof(pool->_running), "running");
-  for (int k = 0; k < NSLOT; ++k) {
+  for (int k = 0; k < nslot; ++k) {
     auto& q = pool->_local_task_queues._storage.ensure(k);
     vrt_namef(&q._next_push_index, 8, "lpush.%d", k);
     vrt_namef(&q._next_pop_index, 8, "lpop.%d", k);
@@ -434,15 +494,16 @@ struct SimpleRun {
     b.done[id] = 1;
     return b.value(id);
   }
+  Rejecting rejecting;
   void probe_reject() {
     int id = b.next_reject++;
-    bool ran = false;
-    auto f = base.execute([&ran] {
-      ran = true;
-      return 1;
-    });
-    if (f.valid() || ran) vrt_event("ORACLE rejected-ran failing executor: valid=%d ran=%d", (int)f.valid(), (int)ran);
-    vrt_event("reject %d", id);
+    int pick = (id + b.salt) % 8;
+    if (pick == 7) {
+      probe_failing(base, -1, id, true);
+    } else {
+      rejecting.code = REJECT_CODES[pick];
+      probe_failing(rejecting, rejecting.code, id, id % 3 != 0);
+    }
   }
 };
 
@@ -471,6 +532,7 @@ static void run_inplace(uint64_t seed) {
   SimpleRun R;
   R.ex = &InplaceExecutor::instance();
   make_forest(rng, R.b, 1 + (int)rng.below(4), 1 + (int)rng.below(3), 20, 30 + (unsigned)rng.below(60), 0, 0);
+  R.b.salt = (int)(seed % 8);
   int nthreads = 1 + (int)rng.below(3);
   vrt_unname_all();
   vrt_begin(seed);
@@ -560,6 +622,10 @@ int main(int argc, char** argv) {
     uint64_t seed = seed0 + i;
     if (mode == "pool") run_pool(seed, false);
     else if (mode == "hold") run_pool(seed, true);
+    else if (mode == "wide") {
+      warm_wide();
+      run_pool(seed, false, true);
+    }
     else if (mode == "inplace") run_inplace(seed);
     else if (mode == "newthread") run_newthread(seed);
     else return 2;
